@@ -67,3 +67,14 @@ Ltac yields_auto := yields_with real_fact ltac:(reflexivity).
 
 (* value equality up to real arithmetic inside [VNum (Fin _)] leaves *)
 Ltac fin_eq := match goal with |- Fin ?a = Fin ?b => apply f_equal; first [reflexivity | ring | field | lra] end.
+
+(* finish a run whose result is one number: equal up to ring/field reasoning once subtraction is unfolded on both sides
+   (the interpreter computes a - b as a + - b) *)
+Ltac finish_num extra :=
+  extra; unfold Rminus; norm_dec;
+  lazymatch goal with
+  | |- Ok (VNum (Fin ?a), ?w) = Ok (VNum (Fin ?b), ?w') =>
+      first [ reflexivity
+            | unify w' w; apply (f_equal (fun x : R => @Ok (val * world) (VNum (Fin x), w)));
+              first [ring | field; repeat split; real_fact0 | (unfold Rdiv; ring)] ]
+  end.
